@@ -246,6 +246,50 @@ def run(db, tier):
     fa, fb = fields(cd), fields(gc)
     rep.check(bool(fa & fb), "R-CONST", "Consts::debug_info|same-map", cd.loc, "debug_info and get_cached_value read the same field %s" % sorted(fa & fb),
               "Consts::debug_info reads %s but constant lookups read %s" % (sorted(fa), sorted(fb)))
+    # ---------------- R-INSTR-BYTES: what write_instr puts in the file is header + blob, and nothing after lowering edits the list
+    import re as _re
+    rep.rule("R-INSTR-BYTES", "the offset pass counts instr_size() = header + argument blob per instruction and runs inside lower_sub: (a) no write_instr "
+                              "implementation writes anything after the blob, (b) the instruction vector returned by Lowerer::lower_sub is stored in "
+                              "the output script without being filtered, reordered or extended")
+    n_wi = 0
+    for im in db.impls:
+        if im["trait"] != "llir::InstrFormat" or im["self"].startswith("llir::Test"):
+            continue
+        for it in im["items"]:
+            if it["n"] != "write_instr":
+                continue
+            g = db.fns.get(it["id"])
+            if g is None:
+                continue
+            n_wi += 1
+            rep.fn(g)
+            writes = [(bi, t) for bi, t in g.calls() if _re.match(r"^io::BinWrite::write_", t.get("f") or "") and not g.blocks[bi].get("cleanup")]
+            dw = flow.Defs(g)
+            blob = [bi for bi, t in writes if (t.get("f") or "").endswith("write_all") and len(t["a"]) > 1 and
+                    any(x[0] == "field" and x[2] == "args_blob" for x in dw._op_sources(t["a"][1], 0, set(), True))]
+            after = []
+            for b0 in blob:
+                reach = g.reachable_from(b0)
+                after += [t["ln"] for bi, t in writes if bi in reach and bi != b0]
+            ok = bool(blob)
+            last_ok = not after
+            rep.check(ok and last_ok, "R-INSTR-BYTES", "%s|nothing after the blob" % im["self"], g.loc, "the argument blob is the last thing written",
+                      "%s::write_instr writes more bytes after the argument blob (lines %s): the instruction is longer in the file than instr_size() says, so every later offset in the debug info is too small" % (im["self"], sorted(set(after))))
+    rep.floor("write_instr implementations", n_wi, 8)
+    MUT = _re.compile(r"Vec::<T, A>::(retain|retain_mut|remove|swap_remove|truncate|insert|push|pop|drain|dedup\w*|clear|extend\w*|append|splice)$|<impl \[T\]>::(sort\w*|reverse|swap)$")
+    n_ls = 0
+    for g in sorted(db.fns.values(), key=lambda g: (g.file, g.line)):
+        if g.gen or not g.file.startswith("src/formats/"):
+            continue
+        if not any(_re.search(r"Lowerer::<'\w+>::lower_sub$|Lowerer::lower_sub$", t.get("f") or "") for _, t in g.calls()):
+            continue
+        n_ls += 1
+        rep.fn(g)
+        bad_m = [(t["ln"], (t.get("f") or "").rsplit("::", 1)[-1]) for bi, t in g.calls()
+                 if MUT.search(t.get("f") or "") and (t.get("ga") or [""])[0] == "llir::RawInstr" and not g.blocks[bi].get("cleanup")]
+        rep.check(not bad_m, "R-INSTR-BYTES", "%s|lowered instructions are final" % root_name(g.id), g.loc, "the lowered instruction list is stored as returned",
+                  "%s edits the instruction list after lowering (%s): offsets, labels and the end offset in the debug info were computed for the unedited list" % (g.id, bad_m))
+    rep.floor("callers of Lowerer::lower_sub in src/formats", n_ls, 4)
     # ---------------- R-EXPORT: the script a debug-info record claims to describe is the script at that position of the output
     import json as _json
     rep.rule("R-EXPORT", "the index recorded in `exported-as` is the position the compiled script takes in the written file: taken from the "
@@ -288,6 +332,11 @@ def run(db, tier):
                           "the exported index of %s does not come from the %s (sources: %s): the record names another script of the output file" % (vname, what, calls[:6]))
     rep.floor("ScriptType records with an index", n_exp, 4)
     return rep
+
+
+def root_name(fid):
+    i = fid.find("::{closure")
+    return fid[:i] if i > 0 else fid
 
 
 def _reg_origin(f, d, local):
